@@ -9,7 +9,7 @@ import (
 
 func init() {
 	register(&CheckDef{ID: "C03", Level: "exploration", Engine: "A", Draw: drawC03,
-		Rule: "1-3 raw-frame HTTP/2 clients, each sending a generated legal session: SETTINGS of any content (unknown / duplicate ids, empty), 0-n WINDOW_UPDATE, PRIORITY on any stream, HEADERS with/without priority, 7 pseudo-header orders, header blocks cut into CONTINUATION frames, request bodies and trailers, PING / unknown frame types in between, further SETTINGS / WINDOW_UPDATE / PRIORITY between and after requests; frames grouped into TLS writes by draw and delivered by the controller; -max-h2-priority-frames in {0,1,k-1,k,k+1,default}; 1%: 9990-10030 PRIORITY frames ahead of the requests under a limit of 10010 / 20000 / 2^30; plus an HTTP/1.1 client in the same world. Oracle: header in { fingerprint(prefix j) : own HEADERS <= j <= frames written before the back-end saw the request }. Non-trivial: at least one request reached the back-end. Distinct: distinct controller action-label sequences."})
+		Rule: "1-3 raw-frame HTTP/2 clients, each sending a generated legal session: SETTINGS of any content (unknown / duplicate ids, empty), 0-n WINDOW_UPDATE (between requests 40% of them on an earlier stream, open or closed), PRIORITY on any stream, HEADERS with/without priority, 7 pseudo-header orders, header blocks cut into CONTINUATION frames, request bodies and trailers, PING / unknown frame types in between, further SETTINGS / WINDOW_UPDATE / PRIORITY between and after requests; frames grouped into TLS writes by draw and delivered by the controller; -max-h2-priority-frames in {0,1,k-1,k,k+1,default,2^63,2^64-1}; 1%: 9990-10030 PRIORITY frames ahead of the requests under a limit of 10010 / 20000 / 2^30; plus an HTTP/1.1 client in the same world. Oracle: header in { fingerprint(prefix j) : own HEADERS <= j <= frames written before the back-end saw the request }. Non-trivial: at least one request reached the back-end. Distinct: distinct controller action-label sequences."})
 }
 
 type c03Aux struct {
